@@ -126,7 +126,14 @@ def load_findings():
         return []
     with open(path) as f:
         data = json.load(f)
-    return data.get("findings", [])
+    out = list(data.get("findings", []))
+    d = os.path.join(VERIF, "known_findings.d")
+    if os.path.isdir(d):
+        for name in sorted(os.listdir(d)):
+            if name.endswith(".json"):
+                with open(os.path.join(d, name)) as f:
+                    out.extend(json.load(f).get("findings", []))
+    return out
 
 
 def match_finding(findings, pid, failure):
